@@ -45,6 +45,72 @@ def tree_fresh(chk, db, rule_id):
     return n
 
 
+def argmin_rule(chk, db, rule_id):
+    """argmin loops that record an index: `if (.. X[i] < best) { idx = i; best = X[i]; }` find every element only if `best` starts strictly above the
+    maximum of X.  Where the function computes that maximum (M = *max_element(X...)), the initial value minus M must be >= 1."""
+    import sympy
+    from tsg.sym import to_sympy, NotClosedForm
+    n = 0
+    libfns = [f for fs_ in db.load_all().values() for f in fs_ if not f.file.startswith("@verif") and "test" not in f.file.lower()]
+    for f in libfns:
+        loc = {v["did"]: v for v in f.locals().values() if "did" in v}
+        # M = *max_element(X.begin(), X.end())  (member or local M)
+        maxes = {}
+        for q in f.walk(into_lambda=False):
+            if q.get("k") in ("BinaryOperator", "VarDecl") :
+                rhs = q["c"][1] if q.get("k") == "BinaryOperator" and q.get("op") == "=" else (q["c"][0] if q.get("k") == "VarDecl" and q.get("c") else None)
+                if rhs is None:
+                    continue
+                me = next((x for x in walk(rhs) if (callee(x) or "") == "std::max_element"), None)
+                if me is not None:
+                    cont = txt(strip(call_object(strip(call_args(me)[0])) or {})) if strip(call_args(me)[0]).get("k") == "CXXMemberCallExpr" else None
+                    name = txt(strip(q["c"][0])) if q.get("k") == "BinaryOperator" else q.get("name")
+                    if cont and name:
+                        maxes[cont] = name
+        if not maxes:
+            continue
+        for q in f.walk(into_lambda=False):
+            if q.get("k") != "IfStmt" or not any(a.get("k") in ("ForStmt", "WhileStmt") for a in f.ancestors(q)):
+                continue
+            for c in walk(q.get("cond")):
+                if c.get("k") != "BinaryOperator" or c.get("op") != "<":
+                    continue
+                elem, best = strip(c["c"][0]), strip(c["c"][1])
+                if best is None or best.get("k") != "DeclRefExpr" or best.get("did") not in loc:
+                    continue
+                cont = None
+                if elem is not None and elem.get("k") == "CXXOperatorCallExpr" and elem.get("op") == "[]":
+                    cont = txt(strip([x for x in elem["c"] if isinstance(x, dict)][-2]))
+                if cont not in maxes:
+                    continue
+                body_asg = [a for a in walk(q.get("then")) if a.get("k") == "BinaryOperator" and a.get("op") == "="]
+                takes_value = any(strip(a["c"][0]).get("did") == best["did"] and txt(strip(a["c"][1])) == txt(elem) for a in body_asg)
+                records_index = any(strip(a["c"][0]).get("did") != best["did"] and strip(a["c"][0]).get("k") == "DeclRefExpr" for a in body_asg)
+                if not (takes_value and records_index):
+                    continue
+                d = loc[best["did"]]
+                ini = [x for x in d.get("c", []) if isinstance(x, dict)]
+                n += 1
+                chk.saw(f)
+                M = sympy.Symbol("M", integer=True)
+                ok, detail = False, "no initial value"
+                if ini:
+                    def res(node, name=maxes[cont]):
+                        if txt(strip(node) or {}) == name or (node.get("k") == "MemberExpr" and short(node.get("field") or "") == name):
+                            return M
+                        return None
+                    try:
+                        e = to_sympy(ini[0], res)
+                        diff = sympy.simplify(e - M)
+                        ok = bool(diff.is_number and diff >= 1)
+                        detail = "initial value %s = max + %s" % (txt(ini[0]), diff)
+                    except NotClosedForm as ex:
+                        detail = "initial value %s is not a closed form over the maximum (%s)" % (txt(ini[0]), ex)
+                chk.ob(rule_id, f.key, "argmin over `%s` starts above its maximum `%s`" % (cont, maxes[cont]), ok, f.loc(q), detail,
+                       "initial value >= max + 1, otherwise the elements on the top level are never selected")
+    return n
+
+
 def run(chk):
     db = DB("serial")
     db.load_all()
@@ -228,6 +294,8 @@ def run(chk):
     # ------------------------------------------------------------------ D6
     nt = tree_fresh(chk, db, "C04-D6.tree")
     chk.floor("C04-D6.tree", nt, 4, "changes of the loaded point set in GridLocalPolynomial")
+    na = argmin_rule(chk, db, "C04-D6.tree")
+    chk.floor("C04-D6.tree", na, 1, "index-recording argmin loops with a known maximum (root search of buildTree)")
 
     return ("Static rule discharge: closed forms of the local bases (partial evaluation) give the support identities and the exact basis integrals; the sparse/dense builders are siblings of "
             "one tree walk; coefficient overwrites recompute the stored values on every path; block partitions are evaluated as closed forms over batch sizes; the evaluation tree is rebuilt "
